@@ -695,7 +695,7 @@ fn convert_convolve_matrix(fe: SvgNode, primitives: &[Primitive]) -> Option<Kind
 
     let mut matrix = Vec::new();
     if let Some(list) = fe.attribute::<Vec<f32>>(AId::KernelMatrix) {
-        if list.len() == (order_x * order_y) as usize {
+        if Some(list.len()) == (order_x as usize).checked_mul(order_y as usize) {
             matrix = list;
         }
     }
@@ -1042,8 +1042,14 @@ fn convert_morphology(fe: SvgNode, scale: Size, primitives: &[Primitive]) -> Kin
 
         // Both values must be positive.
         if rx.is_sign_positive() && ry.is_sign_positive() {
-            radius_x = PositiveF32::new(rx * scale.width()).unwrap();
-            radius_y = PositiveF32::new(ry * scale.height()).unwrap();
+            // Scaled values can still be too large.
+            if let (Some(rx), Some(ry)) = (
+                PositiveF32::new(rx * scale.width()),
+                PositiveF32::new(ry * scale.height()),
+            ) {
+                radius_x = rx;
+                radius_y = ry;
+            }
         }
     }
 
@@ -1084,8 +1090,11 @@ fn convert_turbulence(fe: SvgNode) -> Kind {
         }
 
         if x.is_sign_positive() && y.is_sign_positive() {
-            base_frequency_x = PositiveF32::new(x).unwrap();
-            base_frequency_y = PositiveF32::new(y).unwrap();
+            // Values can still be too large.
+            if let (Some(x), Some(y)) = (PositiveF32::new(x), PositiveF32::new(y)) {
+                base_frequency_x = x;
+                base_frequency_y = y;
+            }
         }
     }
 
